@@ -98,12 +98,24 @@ def run_one(sh, case, driver='generated'):
         except Exception:
             sh.note('default_fit_raised')
             bg_pre = BycycleGroup()
+    opts = copy.deepcopy(kw)
+    for dst, src in (case.get('alias') or []):
+        opts[dst] = opts[src]               # one dict object at both positions (equal values by construction)
+        sh.note('option_list_with_one_object_at_several_positions')
+    if api == 'func' and case.get('reuse_options'):
+        # the caller keeps its option objects: an earlier (unobserved) call with the SAME objects precedes the observed one
+        try:
+            with quiet():
+                compute_features_2d(np.array(sigs, copy=True), fs, f_range, compute_features_kwargs=opts, axis=0, return_samples=rs, n_jobs=1)
+            sh.note('second_call_with_the_same_option_objects')
+        except Exception:
+            sh.note('first_call_raised')
     with poollog.Session(os.environ.get('BCVERIF_WORK', '/tmp'), delays) as ses:
         try:
             with quiet():
                 if api == 'func':
                     arr = np.asfortranarray(sigs) if case.get('layout') == 'F' else np.array(sigs, copy=True)
-                    res = compute_features_2d(arr, fs, f_range, compute_features_kwargs=copy.deepcopy(kw),
+                    res = compute_features_2d(arr, fs, f_range, compute_features_kwargs=opts,
                                               axis=0, return_samples=rs, n_jobs=case['n_jobs'], progress=case['progress'])
                 else:
                     o = copy.deepcopy(kw) or {}
@@ -209,6 +221,11 @@ def make_case(rng, n, order=None, n_jobs=None, api='func'):
         kw = None
     else:
         kw = [gen_row_opts(rng, lo) for _ in range(n)]
+    alias = None
+    if isinstance(kw, list) and len(kw) >= 2 and rng.random() < 0.35:
+        # the list was built from a few dict OBJECTS used at several positions (first and last the same object)
+        alias = [[len(kw) - 1, 0]]
+        kw[-1] = copy.deepcopy(kw[0])
     if order is None:
         order = list(rng.permutation(n))
     # completion order: row order[0] finishes first ... (delays in steps of 40 ms)
@@ -219,7 +236,7 @@ def make_case(rng, n, order=None, n_jobs=None, api='func'):
         n_jobs = int(rng.choice([1, 2, 3, n, n + 3, -1]))
     return dict(sigs=sigs, fs=fs, f_range=(lo, hi), kwargs=kw, return_samples=bool(rng.random() < 0.7),
                 n_jobs=n_jobs, progress=[None, None, 'tqdm', 'tqdm.notebook'][int(rng.integers(0, 4))],
-                delays=delays, api=api, set_attrs=(None if api != 'obj' else [None, 'before_first_fit', 'after_a_fit'][int(rng.integers(0, 3))]), fake_tqdm=bool(rng.random() < 0.5), layout=['C', 'C', 'F'][int(rng.integers(0, 3))])
+                delays=delays, api=api, alias=alias, set_attrs=(None if api != 'obj' else [None, 'before_first_fit', 'after_a_fit'][int(rng.integers(0, 3))]), reuse_options=bool(rng.random() < 0.35), fake_tqdm=bool(rng.random() < 0.5), layout=['C', 'C', 'F'][int(rng.integers(0, 3))])
 
 
 def run(sh):
